@@ -54,6 +54,8 @@ type gen struct {
 	puts     [][2]int // instruction id, deferred 0/1
 	implicit [][2]int // branch condition node -> phi / returned value whose choice it controls (control dependence)
 	controlled [][2]int // branch condition node, placed instruction id it controls
+	precise  map[int]bool  // nodes whose length shadow is fed by explicit rules (no fallback node -> length)
+	ourCall  map[ssa.Value]bool // calls whose callees are inside the analysed packages
 }
 type cmp struct {
 	id   int
@@ -104,6 +106,52 @@ func (g *gen) edge(from, to int) {
 		g.edges = append(g.edges, [2]int{from, to})
 	}
 }
+// Length shadows.  A string or slice value has a length besides its content.  L(n) stands for the length
+// (and, for memory and aggregates, the lengths of the strings and slices held there) of node n.  The length is
+// part of the value: L(n) -> n always.  Conversely the content determines the length only by default: a node
+// gets the fallback edge n -> L(n) unless the instruction that produces it says exactly where its length comes
+// from (slicing: the bounds; make: the size; copies, conversions between string and []byte, loads, stores,
+// parameters, results, phis: the length of what is copied).  len() and cap() read L(x), not x.
+type lenKey struct{ n int }
+
+func (g *gen) L(n int) int {
+	if n == 0 {
+		return 0
+	}
+	return g.node(lenKey{n}, "length of "+g.names[n-1])
+}
+
+// move: v is a copy of x (content and length)
+func (g *gen) move(x, v int) {
+	g.edge(x, v)
+	g.edge(g.L(x), g.L(v))
+}
+
+func (g *gen) exact(v int) int {
+	if v != 0 {
+		g.precise[v] = true
+	}
+	return v
+}
+
+// hasLength: values of this type have (or may hold something that has) a length
+func hasLength(t types.Type) bool {
+	if b, ok := t.Underlying().(*types.Basic); ok {
+		return b.Info()&types.IsString != 0 || b.Kind() == types.UnsafePointer
+	}
+	return true
+}
+
+func isPtrLike(t types.Type) bool {
+	switch u := t.Underlying().(type) {
+	case *types.Pointer:
+		return true
+	case *types.Basic:
+		return u.Kind() == types.UnsafePointer
+	}
+	return false
+}
+
 func (g *gen) ins(p token.Pos, fn *ssa.Function, what string) int {
 	g.nextIns++
 	g.insPos = append(g.insPos, fn.String()+" "+what+" @"+g.pos(p))
@@ -200,15 +248,16 @@ func (g *gen) doFunc(fn *ssa.Function) {
 	expAny := fn.Object() != nil && fn.Object().Exported() && fn.Parent() == nil && fn.Pkg != nil && fn.Pkg.Pkg.Path() == root && !strings.HasPrefix(fn.Name(), "Verif")
 	for _, p := range fn.Params {
 		id := g.val(p)
+		g.exact(id)
 		if exported && textType(p.Type()) {
-			g.srcU = append(g.srcU, id)
+			g.srcU = append(g.srcU, id, g.L(id))
 		}
 		if expAny && refType(p.Type()) {
 			g.paramSrc = append(g.paramSrc, id, g.content(id))
 		}
 	}
 	for _, fv := range fn.FreeVars {
-		g.val(fv)
+		g.exact(g.val(fv))
 	}
 	for _, b := range fn.Blocks {
 		for _, s := range b.Succs {
@@ -325,6 +374,9 @@ func (g *gen) controlDeps(fn *ssa.Function, fid int) {
 					}
 					for _, c := range cs {
 						g.implicit = append(g.implicit, [2]int{c, g.val(x)})
+						if hasLength(x.Type()) {
+							g.implicit = append(g.implicit, [2]int{c, g.L(g.val(x))})
+						}
 					}
 				}
 			case *ssa.Return:
@@ -332,6 +384,9 @@ func (g *gen) controlDeps(fn *ssa.Function, fid int) {
 					rn := g.node(retKey{fn, i}, fmt.Sprintf("%s result %d", fn.String(), i))
 					for _, c := range dependsOn(b.Index) {
 						g.implicit = append(g.implicit, [2]int{c, rn})
+						if hasLength(x.Results[i].Type()) {
+							g.implicit = append(g.implicit, [2]int{c, g.L(rn)})
+						}
 					}
 				}
 			}
@@ -392,21 +447,29 @@ func (g *gen) callCommon(fn *ssa.Function, fid int, b *ssa.BasicBlock, in ssa.In
 		ps := callee.Params
 		for i, a := range args {
 			if i < len(ps) {
-				g.edge(g.val(a), g.val(ps[i]))
+				g.move(g.val(a), g.val(ps[i]))
 			}
 		}
 		nres := callee.Signature.Results().Len()
 		for i := 0; i < nres; i++ {
-			g.edge(g.node(retKey{callee, i}, fmt.Sprintf("%s result %d", callee.String(), i)), g.tupleSlot(result, i, nres))
+			g.move(g.exact(g.node(retKey{callee, i}, fmt.Sprintf("%s result %d", callee.String(), i))), g.exact(g.tupleSlot(result, i, nres)))
 		}
 	}
 	if len(callees) > 0 {
+		if result != nil {
+			g.ourCall[result] = true
+		}
 		return
 	}
 	// a call that leaves the analysed packages
 	switch {
 	case name == "builtin copy":
 		g.edge(g.val(args[1]), g.val(args[0]))
+		g.edge(g.L(g.val(args[0])), res) // the number of elements copied
+		g.edge(g.L(g.val(args[1])), res)
+		return
+	case name == "builtin len" || name == "builtin cap":
+		g.edge(g.L(g.val(args[0])), res)
 		return
 	case strings.HasPrefix(name, "builtin "):
 		for _, a := range args {
@@ -447,6 +510,7 @@ func (g *gen) callCommon(fn *ssa.Function, fid int, b *ssa.BasicBlock, in ssa.In
 		for _, d := range args {
 			if d != a && refType(d.Type()) {
 				g.edge(g.val(a), g.val(d))
+				g.edge(g.val(a), g.L(g.val(d))) // unknown code may also decide the lengths of what it fills in
 			}
 		}
 	}
@@ -487,7 +551,11 @@ func (g *gen) doInstr(fn *ssa.Function, fid int, b *ssa.BasicBlock, in ssa.Instr
 			g.inblk = append(g.inblk, [4]int{1, iid, fid, b.Index + 1})
 		}
 	case *ssa.UnOp:
-		g.edge(g.val(x.X), g.val(x))
+		if x.Op == token.MUL { // a load: a copy of what is stored there
+			g.move(g.val(x.X), g.exact(g.val(x)))
+		} else {
+			g.edge(g.val(x.X), g.val(x))
+		}
 	case *ssa.Call:
 		g.callCommon(fn, fid, b, in, &x.Call, x)
 	case *ssa.Go:
@@ -497,7 +565,11 @@ func (g *gen) doInstr(fn *ssa.Function, fid int, b *ssa.BasicBlock, in ssa.Instr
 	case *ssa.Extract:
 		if call, ok := x.Tuple.(*ssa.Call); ok {
 			n := call.Call.Signature().Results().Len()
-			g.edge(g.tupleSlot(call, x.Index, n), g.val(x))
+			if g.ourCall[call] {
+				g.move(g.tupleSlot(call, x.Index, n), g.exact(g.val(x)))
+			} else {
+				g.edge(g.tupleSlot(call, x.Index, n), g.val(x))
+			}
 			if !isErrorType(x.Type()) { // an error value reported by code outside the analysed packages carries no data of interest
 				g.edge(g.val(call), g.val(x)) // for calls leaving the analysed packages the tuple is one node
 			}
@@ -505,11 +577,16 @@ func (g *gen) doInstr(fn *ssa.Function, fid int, b *ssa.BasicBlock, in ssa.Instr
 			g.edge(g.val(x.Tuple), g.val(x))
 		}
 	case *ssa.Phi:
+		g.exact(g.val(x))
 		for _, e := range x.Edges {
-			g.edge(g.val(e), g.val(x))
+			g.move(g.val(e), g.val(x))
 		}
 	case *ssa.Store:
-		g.edge(g.val(x.Val), g.val(x.Addr))
+		if hasLength(x.Val.Type()) {
+			g.move(g.val(x.Val), g.val(x.Addr))
+		} else {
+			g.edge(g.val(x.Val), g.val(x.Addr))
+		}
 		_, isG := x.Addr.(*ssa.Global)
 		g.stores = append(g.stores, [3]int{fid, g.val(x.Addr), b2i(isG)})
 		if isG && fn.Name() != "init" {
@@ -521,36 +598,50 @@ func (g *gen) doInstr(fn *ssa.Function, fid int, b *ssa.BasicBlock, in ssa.Instr
 	case *ssa.Send:
 		g.edge(g.val(x.X), g.val(x.Chan))
 	case *ssa.FieldAddr:
-		g.edge(g.val(x.X), g.val(x))
-		g.edge(g.val(x), g.val(x.X))
+		g.exact(g.val(x))
+		g.move(g.val(x.X), g.val(x))
+		g.move(g.val(x), g.val(x.X))
 	case *ssa.IndexAddr:
-		g.edge(g.val(x.X), g.val(x))
-		g.edge(g.val(x), g.val(x.X))
+		g.exact(g.val(x))
+		g.move(g.val(x.X), g.val(x))
+		g.move(g.val(x), g.val(x.X))
 		// the index selects an element; it is not copied (table look-ups keyed by data are not tracked)
 	case *ssa.Slice:
-		g.edge(g.val(x.X), g.val(x))
-		g.edge(g.val(x), g.val(x.X))
+		v := g.exact(g.val(x))
+		g.edge(g.val(x.X), v)
+		g.edge(v, g.val(x.X))
+		// the length of a slice expression is decided by its bounds and, where one is omitted, by the operand's length
+		for _, bnd := range []ssa.Value{x.Low, x.High, x.Max} {
+			if bnd != nil {
+				g.edge(g.val(bnd), g.L(v))
+			}
+		}
+		g.edge(g.L(g.val(x.X)), g.L(v))
 	case *ssa.Field:
-		g.edge(g.val(x.X), g.val(x))
+		g.move(g.val(x.X), g.exact(g.val(x)))
 	case *ssa.Index:
 		g.edge(g.val(x.X), g.val(x))
 	case *ssa.Lookup:
 		g.edge(g.val(x.X), g.val(x))
 	case *ssa.Convert:
-		g.edge(g.val(x.X), g.val(x))
+		if textType(x.X.Type()) && textType(x.Type()) || isPtrLike(x.X.Type()) && isPtrLike(x.Type()) {
+			g.move(g.val(x.X), g.exact(g.val(x))) // string <-> []byte, pointer <-> unsafe.Pointer: same bytes, same length
+		} else {
+			g.edge(g.val(x.X), g.val(x))
+		}
 	case *ssa.ChangeType:
-		g.edge(g.val(x.X), g.val(x))
+		g.move(g.val(x.X), g.exact(g.val(x)))
 	case *ssa.ChangeInterface:
-		g.edge(g.val(x.X), g.val(x))
+		g.move(g.val(x.X), g.exact(g.val(x)))
 	case *ssa.MakeInterface:
-		g.edge(g.val(x.X), g.val(x))
+		g.move(g.val(x.X), g.exact(g.val(x)))
 	case *ssa.SliceToArrayPointer:
 		g.edge(g.val(x.X), g.val(x))
 		g.edge(g.val(x), g.val(x.X))
 	case *ssa.MultiConvert:
 		g.edge(g.val(x.X), g.val(x))
 	case *ssa.TypeAssert:
-		g.edge(g.val(x.X), g.val(x))
+		g.move(g.val(x.X), g.exact(g.val(x)))
 	case *ssa.Range:
 		g.edge(g.val(x.X), g.val(x))
 	case *ssa.Next:
@@ -565,13 +656,13 @@ func (g *gen) doInstr(fn *ssa.Function, fid int, b *ssa.BasicBlock, in ssa.Instr
 	case *ssa.MakeClosure:
 		f := x.Fn.(*ssa.Function)
 		for i, bnd := range x.Bindings {
-			g.edge(g.val(bnd), g.val(f.FreeVars[i]))
+			g.move(g.val(bnd), g.val(f.FreeVars[i]))
 			g.edge(g.val(bnd), g.val(x))
 		}
 	case *ssa.Return:
 		for i, r := range x.Results {
-			rn := g.node(retKey{fn, i}, fmt.Sprintf("%s result %d", fn.String(), i))
-			g.edge(g.val(r), rn)
+			rn := g.exact(g.node(retKey{fn, i}, fmt.Sprintf("%s result %d", fn.String(), i)))
+			g.move(g.val(r), rn)
 		}
 	case *ssa.If:
 		g.ifs = append(g.ifs, ifrec{fid, b.Index + 1, g.val(x.Cond)})
@@ -580,6 +671,11 @@ func (g *gen) doInstr(fn *ssa.Function, fid int, b *ssa.BasicBlock, in ssa.Instr
 			g.val(v)
 			if ms, ok := in.(*ssa.MakeSlice); ok {
 				g.edge(g.val(ms.Len), g.val(ms))
+				g.edge(g.val(ms.Len), g.L(g.exact(g.val(ms))))
+				g.edge(g.val(ms.Cap), g.L(g.val(ms)))
+			}
+			if al, ok := in.(*ssa.Alloc); ok {
+				g.exact(g.val(al)) // what a fresh variable holds is what was stored into it
 			}
 		}
 	default:
@@ -838,7 +934,7 @@ func main() {
 	}
 	prog, _ := ssautil.AllPackages(pkgs, ssa.InstantiateGenerics)
 	prog.Build()
-	g := &gen{prog: prog, fset: fset, ids: map[any]int{}, fnIDs: map[*ssa.Function]int{}, ours: map[*ssa.Function]bool{}}
+	g := &gen{prog: prog, fset: fset, ids: map[any]int{}, fnIDs: map[*ssa.Function]int{}, ours: map[*ssa.Function]bool{}, precise: map[int]bool{}, ourCall: map[ssa.Value]bool{}}
 	var fns []*ssa.Function
 	for fn := range ssautil.AllFunctions(prog) {
 		if isOurs(fn) && fn.Blocks != nil && !strings.Contains(fn.String(), "/docs.") {
@@ -859,11 +955,27 @@ func main() {
 	// JavaScript callbacks: the arguments JavaScript passes are caller-supplied text
 	for _, fn := range fns {
 		if mode == "wasm" && fn.Pkg != nil && fn.Pkg.Pkg.Name() == "main" && len(fn.Params) == 2 && fn.Params[1].Type().String() == "[]syscall/js.Value" {
-			g.srcU = append(g.srcU, g.val(fn.Params[1]))
+			g.srcU = append(g.srcU, g.val(fn.Params[1]), g.L(g.val(fn.Params[1])))
 		}
 	}
 	for _, fn := range fns {
 		g.doFunc(fn)
+	}
+	// length shadows: the length is part of the value; without an exact rule the content decides the length
+	{
+		var ls [][2]int
+		for k, id := range g.ids {
+			if lk, ok := k.(lenKey); ok {
+				ls = append(ls, [2]int{lk.n, id})
+			}
+		}
+		sort.Slice(ls, func(i, j int) bool { return ls[i][1] < ls[j][1] })
+		for _, x := range ls {
+			g.edge(x[1], x[0])
+			if !g.precise[x[0]] {
+				g.edge(x[0], x[1])
+			}
+		}
 	}
 	_ = constant.MakeBool
 	var b strings.Builder
